@@ -63,6 +63,8 @@ def _path_work(args):
         except PathCut:
             pass
         out["alternatives"] = st.alternatives
+        if st.ghost.get("vacuity_alarms"):
+            out["status"], out["reason"] = "error", "VACUITY: " + "; ".join(st.ghost["vacuity_alarms"][:3])
         hook = None
         if opts.get("replay"):
             from . import replay
@@ -80,6 +82,16 @@ def _path_work(args):
                 except Exception as e:  # replay is best effort
                     ob.info["replay_error"] = repr(e)
             out["obligations"].append(verify.ob_to_dict(ob))
+        if opts.get("vacuity") and st.obligations:
+            # vacuity probe: a path that carries obligations must not be refutable by the very facts it assumes (contract
+            # postconditions, loop invariants, library axioms); E-matching only, short budget; `unknown` = not refuted
+            vs = z3.Solver()
+            vs.set("auto_config", False)
+            vs.set("mbqi", False)
+            vs.set("timeout", int(opts.get("vacuity_ms", 1500)))
+            for f in st.facts:
+                vs.add(f)
+            out["vacuous"] = (vs.check() == z3.unsat)
         out["touched"] = {"%s:%s" % k: v for k, v in eng.touched.items()}
         out["lib_used"] = sorted(lib.USED)
     except Unsupported as e:
@@ -124,6 +136,8 @@ def run(modules, select=None, jobs=None, opts=None):
             if f["status"] == "ok" or r["status"] == "error":
                 f["status"], f["reason"] = r["status"], r["reason"]
             return
+        if r.get("vacuous"):
+            f.setdefault("vacuous_paths", []).append(list(r["prefix"]))
         if r["terminal"]:
             f["terminal_paths"] += 1
         for ob in r["obligations"]:
@@ -172,12 +186,15 @@ def run(modules, select=None, jobs=None, opts=None):
 if __name__ == "__main__":
     mods = sys.argv[1].split(",")
     only = set(sys.argv[2:])
-    reg, results, wall = run(mods, (lambda c: c.key[1] in only or c.qualname in only) if only else None)
+    reg, results, wall = run(mods, (lambda c: c.key[1] in only or c.qualname in only) if only else None,
+                             opts={"vacuity": bool(os.environ.get("PYVC_VACUITY"))})
     bad = 0
     for r in results:
         obs = r["obligations"]
         nd = sum(1 for o in obs if o["status"] == "discharged")
         print("== %-55s %-9s paths=%d obs=%d discharged=%d %.1fs %s" % (r["qualname"], r["status"], r["paths"], len(obs), nd, r["time"], r["reason"][:300]))
+        if r.get("vacuous_paths"):
+            print("    VACUOUS paths: %d e.g. %s" % (len(r["vacuous_paths"]), r["vacuous_paths"][:3]))
         seen = set()
         for o in obs:
             if o["status"] != "discharged":
